@@ -37,22 +37,24 @@ Names == {"A", "B"}
 RespOf(ob) == [out |-> ob.out, trig |-> ob.trig, msg |-> ob.msg]
 
 (* record of a request for the agreement monitor: the synced state it was made from *)
-ReqRec(k, top, o, ob) ==
-    [k |-> k, slot |-> o.s, e |-> top.env.active, q |-> top.env.q[top.env.active],
-     row |-> top.ks[k].ptr[top.env.active], ids |-> ob.trig.ids, hash |-> ob.hash]
+ReqRec(k, top, o, ob, g) ==
+    LET e == top.env.active IN
+    [k |-> k, slot |-> o.s, e |-> e, q |-> top.env.q[e],
+     row |-> top.ks[k].ptr[e], ids |-> ob.trig.ids, hash |-> ob.hash,
+     gp |-> g.gp[e], glo |-> g.glo[e], ghi |-> g.ghi[e], unk |-> (g.ga[e] = Null)]
 
-NewRecs(top, line) ==
-    {ReqRec(k, top, line.o, line.obs[k]) : k \in {x \in Names : line.obs[x].out = "emit"}}
+NewRecs(top, line, g2) ==
+    {ReqRec(k, top, line.o, line.obs[k], g2[k]) : k \in {x \in Names : line.obs[x].out = "emit"}}
 
 StepViol(top, line, g2) ==
     LET o == line.o
-        new == NewRecs(top, line)
+        new == NewRecs(top, line, g2)
         old == {top.recs[i] : i \in DOMAIN top.recs}
     IN UNION {
          (IF line.obs[k].out \in {"panic", "hang"} THEN {"C19_NoPanic"} ELSE {}) \cup
          ObsFailed(top.env, o, g2[k], RespOf(line.obs[k]), line.obs[k].st.ptr)
          : k \in Names} \cup
-       (IF \A r1 \in new : \A r2 \in new \cup old : r1.k # r2.k => AgreeOK(r1, r2) THEN {} ELSE {"C19_Agree"})
+       (IF \A r1 \in new : \A r2 \in new \cup old : r1.k # r2.k => AgreeOK2(r1, r2) THEN {} ELSE {"C19_Agree"})
 
 StepDrift(top, line) ==
     \E k \in Names :
@@ -80,7 +82,7 @@ TNext ==
               LET top == stack[Len(stack)]
                   o   == line.o
                   g2  == [k \in Names |-> GhostStep(top.gh[k], top.env, o, RespOf(line.obs[k]))]
-                  new == NewRecs(top, line)
+                  new == NewRecs(top, line, g2)
               IN /\ viol' = viol \cup {<<l, m>> : m \in StepViol(top, line, g2)}
                  /\ drift' = drift \cup (IF StepDrift(top, line) THEN {l} ELSE {})
                  /\ bad' = bad \cup (IF line.env.A = line.env.B /\ line.env.A = EnvStep(top.env, o) THEN {} ELSE {l})
